@@ -220,12 +220,12 @@ fn check_merge_ident(ctx: &mut Ctx, e1: u8, az1: &[u16], e2: u8, az2: &[u16], eq
     let a: Vec<Radial> = az1
         .iter()
         .enumerate()
-        .map(|(i, &z)| mk_radial(if equal_radials { z as i64 } else { 10_000 + i as i64 }, z, e1))
+        .map(|(i, &z)| mk_radial(if equal_radials { z as i64 } else { 30_000 + (i as i64 * 7919) % 10_007 }, z, e1))
         .collect();
     let b: Vec<Radial> = az2
         .iter()
         .enumerate()
-        .map(|(i, &z)| mk_radial(if equal_radials { z as i64 } else { 20_000 + i as i64 }, z, e2))
+        .map(|(i, &z)| mk_radial(if equal_radials { z as i64 } else { 20_007 - (i as i64 * 7919) % 10_007 }, z, e2))
         .collect();
     if equal_radials {
         ctx.obs.count("merges_with_equal_radials", 1);
@@ -314,7 +314,8 @@ fn check_merge_ident(ctx: &mut Ctx, e1: u8, az1: &[u16], e2: u8, az2: &[u16], eq
 fn check_nested_merge(ctx: &mut Ctx, e: u8, lists: [&[u16]; 4], shape: u64) {
     ctx.obs.case(shape);
     let mk = |base: i64, az: &[u16]| -> Vec<Radial> { az.iter().enumerate().map(|(i, &z)| mk_radial(base + i as i64, z, e)).collect() };
-    let (a, b, c, d) = (mk(10_000, lists[0]), mk(20_000, lists[1]), mk(30_000, lists[2]), mk(40_000, lists[3]));
+    // collection times do not follow operand order: the later operands are the older ones
+    let (a, b, c, d) = (mk(40_000, lists[0]), mk(20_000, lists[1]), mk(30_000, lists[2]), mk(10_000, lists[3]));
     let replay = json!({"op": "merge of merges", "elevation": e, "a": lists[0], "b": lists[1], "c": lists[2], "d": lists[3]});
     let r = mon::catch(|| {
         let ab = Sweep::new(e, a.clone()).merge(Sweep::new(e, b.clone()))?;
@@ -500,6 +501,35 @@ distinct = distinct elevation strings / azimuth-list pairs; oracle = 10-line ref
             _ => Ident::Unique,
         };
         check_grouping_ident(ctx, &elevs, ident, mix(shape, i));
+        // every third list is followed at once by a *look-alike*: same length or a little longer,
+        // the very same radials at both ends of the previous list (and the same identities
+        // throughout), other elevation numbers in between - a different input that anything
+        // sampling a list at a few places would take for the previous one, or for its extension
+        if i % 3 == 0 && elevs.len() >= 3 {
+            let mut other = elevs.clone();
+            let last = other.len() - 1;
+            let changes = 1 + rng.usize_below((other.len() / 8).max(1));
+            for _ in 0..changes {
+                let p = 1 + rng.usize_below(last - 1);
+                other[p] = match rng.below(3) {
+                    0 => other[p - 1],
+                    1 => other[p].wrapping_add(1),
+                    _ => rng.u8(),
+                };
+            }
+            if rng.chance(1, 2) {
+                let extra = rng.urange(1, 12);
+                let mut cur = *other.last().unwrap_or(&0);
+                for _ in 0..extra {
+                    if rng.chance(1, 3) {
+                        cur = cur.wrapping_add(1);
+                    }
+                    other.push(cur);
+                }
+            }
+            ctx.obs.count("look_alike_lists_after_the_previous_one", 1);
+            check_grouping_ident(ctx, &other, if matches!(ident, Ident::UniqueScrambled) { ident } else { Ident::Unique }, mix(shape ^ 0x51b, i));
+        }
     }
 
     // random merge
